@@ -1,7 +1,9 @@
 import HedVerif.Driver.Util
 import HedVerif.Driver.C08
+import HedVerif.Driver.Closed
 import HedVerif.Model.Bids
 import HedVerif.Model.BidsV
+import HedVerif.Model.ClosedDataset
 open Lean
 namespace HedVerif.Driver.C16
 open HedVerif HedVerif.Driver HedVerif.Bids
@@ -90,6 +92,66 @@ def runExnName : RunExn → String
   | .validation (.sidecar _ e) => "sidecar:" ++ C08.exnName e
   | .validation (.table _ _) => "table"
 
+/-! ### closed dataset stream -/
+
+def tissueJson (i : Tabular.Issue) : Json :=
+  jarr [jstr i.kind, jnat i.sev, jopt jnat i.row, jopt jstr i.col, Json.str (C07.srcName i.src), jstr i.text]
+
+def dissueClosedJson : DIssue → Json
+  | .sidecar f i => jarr [Json.str (pathStr f), Json.str "sidecar", C08.issueJson i]
+  | .table f i => jarr [Json.str (pathStr f), Json.str "table", tissueJson i]
+
+/-- a frame the harness did not supply: one visible marker issue -/
+def missingFrame : Tabular.Cfg × List Tabular.Row := (stubCfg [⟨"FRAME-MISSING".toList, 1⟩], [])
+
+/-- `c16.closed`: schema environment of `c01.run` + `trees`, each `dir` + `excluded`, `types`, `cfw` + `frames`
+(`[[path components], c07-request]` per events file, built by the real `TabularInput` from the file and the sidecar
+this model merged).  Answer: the `HedFileError` code, or per participating object (sidecars first, discovery order)
+`unmodelled` / `raise` / `issues` (warnings included), and — when nothing is unmodelled — `all` =
+`validateDatasetClosed` (filtered by `cfw`). -/
+def closedJson (env : Validate.Env) (j : Json) : Except String Json := do
+  let D ← dirOf (← getVal j "dir")
+  let excl ← (← getArr j "excluded").mapM asStr
+  let types ← (← getArr j "types").mapM asStr
+  let cfw := getBoolD j "cfw" false
+  let frames ← (← getArr j "frames").mapM fun e => match e with
+    | Json.arr #[p, rq] => do
+        pure ((← (← asArr p).mapM asStr), (← C07.cfgOf rq), (← (← getArr rq "rows").mapM C07.rowOf))
+    | _ => .error "frames entries must be [path, request]"
+  let kB := Closed.kBanned
+  let F : Frames := fun d _ => match frames.find? (·.1 == d.path) with
+    | some (_, cfg, T) => (cfg, T)
+    | none => missingFrame
+  match loadAll D.listing excl types with
+  | .error e => pure <| jobj [("error", Json.str (errName e))]
+  | .ok gs =>
+    let sideJson (g : Group SJson) (s : PFile SJson) : Json × Bool :=
+      let head := [("path", Json.str (pathStr s.path)), ("kind", Json.str "sidecar")]
+      let why := if loadIssueCount g s == 0 then Closed.sidecarUnmodelled env .fixed (.obj (mergeImpl g s)) else none
+      match why with
+      | some w => (jobj (head ++ [("unmodelled", Json.str w)]), true)
+      | none => match sidecarClosed env g s with
+        | .ok is => (jobj (head ++ [("issues", jarr (is.map C08.issueJson))]), false)
+        | .error .unmodelled => (jobj (head ++ [("unmodelled", Json.str "pandas coercion")]), true)
+        | .error e => (jobj (head ++ [("raise", Json.str (C08.exnName e))]), false)
+    let tabJson (g : Group SJson) (d : PFile SJson) : Json × Bool :=
+      let head := [("path", Json.str (pathStr d.path)), ("kind", Json.str "table")]
+      let (cfg, T) := F d (sidecarOf g d)
+      match (HedVerif.Closed.consulted cfg T).find? (HedVerif.Closed.textUnmodelled env) with
+      | some t => (jobj (head ++ [("unmodelled", jstr t)]), true)
+      | none =>
+        if T.any (HedVerif.Closed.rowSplit env kB cfg) then
+          (jobj (head ++ [("unmodelled", Json.str "malformed cell in a checked row")]), true)
+        else match tableClosed env kB F g d with
+          | .ok is => (jobj (head ++ [("issues", jarr (is.map tissueJson))]), false)
+          | .error e => (jobj (head ++ [("raise", Json.str (C07.excName e))]), false)
+    let per := gs.flatMap fun g => g.sidecars.map (sideJson g) ++ g.datafiles.map (tabJson g)
+    let all := if per.any (·.2) then Json.null else
+      match validateDatasetClosed env kB F D.listing excl types cfw with
+      | .ok l => jarr (l.map dissueClosedJson)
+      | .error e => Json.str (runExnName e)
+    pure <| jobj [("files", jarr (per.map (·.1))), ("all", all)]
+
 /-- requests of property C16 (trees as nested directories in scandir order):
 * `c16.group {dir, excluded, suffix}` → discovery, chains and merges of every object, or the `HedFileError` code
 * `c16.discover {dir, excluded, prefixes, suffixes, exts, skip_empty}` → `get_file_list`, `get_dir_dictionary`,
@@ -139,6 +201,9 @@ def handle (op : String) (j : Json) : Option (Except String Json) :=
       | .ok r => pure <| jobj [("exit", jnat r.exit),
                                ("dest", match r.dest with | .stdout => Json.null | .file f => jstr f),
                                ("issues", jarr (r.issues.map dissueJson))]
+  | "c16.closed" => some do
+      let env ← C01.envOf j
+      pure (jobj [("answers", jarr (← (← getArr j "trees").mapM (closedJson env)))])
   | "c16.exit" => some do
       pure <| jobj [("exit", jnat (exitCode (← getArr j "issues")))]
   | _ => none
